@@ -314,6 +314,26 @@ CLAIMS["C02"] = dict(
               "over symbolic selection indices, provenance tokens",
     ref="3/C02")
 
+CLAIMS["C07"] = dict(
+    text="The real BasinProxyFeature/BasinProxy access paths (int, slice "
+         "with symbolic bounds, boolean mask, whole array, np.array; scalar "
+         "and non-scalar; cache cold and warm) run on an origin of symbolic "
+         "size with a basin map of SYMBOLIC indices; z3 proves "
+         "referrer[q] == origin[map[q]] as equalities of index terms. The "
+         "real RTDCWriter.store_basin is run against 0..3 existing basinmapN "
+         "features with symbolic content (reuse only when equal, never "
+         "overwrite). The basins branch of the real Export.hdf5 is run for "
+         "every filter: the stored map equals the selected indices (identity "
+         "basins) resp. the original symbolic map restricted to the selected "
+         "events (mapped basins) - by induction the composed map of any "
+         "export chain.",
+    note="Trusted: z3, symx, origin/dataset stubs, h5py stand-in. Path "
+         "resolution, remote basins, identifier checks (C14) and the "
+         "innate-over-basin lookup order are outside this check.",
+    technique="symbolic execution of the real Python code objects + z3 (LIA) "
+              "over symbolic index maps",
+    ref="3/C07")
+
 NOT_APPLICABLE = {
 }
 
